@@ -58,6 +58,11 @@ func hostileBodies(c *Ctx, n int) [][]byte {
 			}
 			for tail := 0; tail <= 3; tail++ {
 				all = append(all, append(append([]byte{}, b...), make([]byte, tail)...))
+				if tail > 0 {
+					// a truncated last word that begins like a request id (top bit set), and one of all ones
+					all = append(all, append(append([]byte{}, b...), []byte{0x80, 0, 0}[:tail]...))
+					all = append(all, append(append([]byte{}, b...), []byte{0xff, 0xff, 0xff}[:tail]...))
+				}
 			}
 			k := nw - 1
 			for k >= 0 {
